@@ -7,7 +7,7 @@ from .. import schemarun as R
 from .. import simplerun as Q
 
 LEVEL = "proof"
-N = {"quick": 700, "thorough": 30000}
+N = {"quick": 8000, "thorough": 30000}
 PID = "C08"
 
 
